@@ -52,7 +52,10 @@ pub fn check_case(vt: &VTable, prop: &str, b: &Budget, seed: u64) -> Report {
     match prop {
         "C01" => checks::c01(vt, &m, b, &mut rng, &mut rep),
         "C03" => checks::c03(vt, &m, b, &mut rng, &mut rep),
-        "C04" => checks::c04(vt, &m, b, &mut rng, &mut rep),
+        "C04" => {
+            checks::c04(vt, &m, b, &mut rng, &mut rep);
+            checks::c04_storm(vt, &m, b, &mut rng, &mut rep);
+        }
         "C05" => checks::c05(vt, &m, b, &mut rng, &mut rep),
         "C06" => checks::c06(vt, &m, b, &mut rng, &mut rep),
         "C07" => checks::c07(vt, &m, b, &mut rng, &mut rep),
